@@ -418,20 +418,6 @@ def layer2(ctx, res, known, V, work, lines):
             if same(o[e], o["c"]):
                 st["same_as_c"] = st.get("same_as_c", 0) + 1
                 continue
-            ls = l.rstrip(" \t")
-            if ls != l and (len(ls) - len(ls.rstrip("\\"))) % 2 == 1:
-                # class esc-trailing-blank-script: the script path trims the line with a plain trim(); recorded behaviour =
-                # what -c does with the trimmed line
-                if "esc-trailing-blank-script" not in known:
-                    V("oracle", "L2", l, o["c"], o[e], True, "class esc-trailing-blank-script is not listed in known_findings.txt")
-                elif same(o[e], run_entry(ctx, work, ls, "c")):
-                    res.known("esc-trailing-blank-script", "class=esc-trailing-blank-script e.g. %s line %r: argv %r, with -c: %r" % (
-                        e, short, o[e]["argv"], o["c"]["argv"]))
-                    st["esc-trailing-blank-script"] = st.get("esc-trailing-blank-script", 0) + 1
-                else:
-                    V("oracle", "L2", l, {"entry": "-c of the trimmed line", **run_entry(ctx, work, ls, "c")}, {"entry": e, **o[e]}, True,
-                      "an escaped trailing blank: differs from -c, and not in the way recorded for class esc-trailing-blank-script")
-                continue
             if not tb:
                 V("oracle", "L2", l, {"entry": "-c", **o["c"]}, {"entry": e, **o[e]}, True,
                   "the line behaves differently through entry point %s than through -c" % e)
